@@ -819,6 +819,32 @@ impl h3_datagram::quic_traits::DatagramConnectionExt<Bytes> for SimConn {
 use std::future::Future;
 use std::pin::Pin;
 
+struct SelfWake(std::sync::atomic::AtomicBool);
+
+impl std::task::Wake for SelfWake {
+    fn wake(self: std::sync::Arc<Self>) {
+        self.0.store(true, std::sync::atomic::Ordering::SeqCst);
+    }
+}
+
+/// Poll a boxed future as one step of SETUP (a `build`, a `send_request` over a transport that never blocks): a future
+/// that answers `Pending` after having woken its own waker during that very poll (a cooperative yield, a re-queued
+/// state machine) is polled again - any executor would - until it is ready or is pending without such a wake.  How
+/// many polls the library needs to set a connection up is not something a case may depend on.
+pub fn poll_settled<F: Future + ?Sized>(f: &mut Pin<Box<F>>) -> Poll<F::Output> {
+    let flag = std::sync::Arc::new(SelfWake(std::sync::atomic::AtomicBool::new(false)));
+    let w = std::task::Waker::from(flag.clone());
+    let mut cx = Context::from_waker(&w);
+    for _ in 0..10_000 {
+        flag.0.store(false, std::sync::atomic::Ordering::SeqCst);
+        let r = f.as_mut().poll(&mut cx);
+        if r.is_ready() || !flag.0.load(std::sync::atomic::Ordering::SeqCst) {
+            return r;
+        }
+    }
+    Poll::Pending
+}
+
 /// Poll a boxed future once with a no-op waker.
 pub fn poll_once<F: Future + ?Sized>(f: &mut Pin<Box<F>>) -> Poll<F::Output> {
     let w = futures_util::task::noop_waker();
